@@ -3,29 +3,35 @@
 Explicit-state breadth-first search in which the transition function is the real code of
 insights/client/utilities.py acting on a REAL directory tree under /dev/shm:
 
-    <root>/etc1/   first configuration directory  (machine-id, .registered, .unregistered) - may be absent
-    <root>/etc2/   second (legacy) configuration directory (.registered, .unregistered)    - may be absent
-    <root>/tg/     where planted symlinks point to (t = existing file, nope = missing, idt / idnope likewise
-                   for a symlink planted at the machine-id location)
+    <root>/etc1/   first configuration directory  (machine-id, .registered, .unregistered)
+    <root>/etc2/   second (legacy) configuration directory (.registered, .unregistered)   [etc3: a third one]
+                   each of them: a real directory | absent | a symlink to a real directory | a dangling symlink
+    <root>/tg/     where planted symlinks point to (t = existing file, nope = missing; idt / idnope / ids likewise
+                   for a symlink at the machine-id location)
 
-`constants.registered_files / unregistered_files` are pointed into the tree, the identifier file is
-passed as `destination_file`, `uuid.uuid4` is a counter at the seam `insights.client.utilities.uuid`
-and `_get_rhsm_identity` answers what the event says.
+`constants.registered_files / unregistered_files` are pointed into the tree (in either order), the identifier file
+is passed as `destination_file`.  The seams are below the code under test: `uuid.uuid4` of the standard library is
+a counter, and the subscription identity is answered by `cert_auth.RHSM_CONFIG` / `cert_auth.rhsmCertificate.read`
+(the real `_get_rhsm_identity` runs).
 
-A state is the complete content of the tree (every entry: absent | regular file + content | symlink +
-target, read back by scanning the directories after every event) plus the identifier returned last.
-States are de-duplicated on a canonical form (see `canon`), every (state, event) pair is executed
-exactly once, the search runs until no new canonical state appears (closure).  Every violation is
-reported with the shortest event trace from an initial state and is re-executed from scratch on a
-fresh directory (no snapshots, no restore) before it is recorded.
+A state is the complete content of the tree (every entry: absent | regular file + content | symlink + target,
+read back by scanning the directories after every event) plus the identifier returned last.  States are
+de-duplicated on a canonical form (see `canon`), every (state, event) pair is executed exactly once, the search
+runs until no new canonical state appears (closure).  Every event of the search models one client run: module-level
+state of the code under test is put back to its import-time value before it (generic snapshot, `Hidden`).  A second
+part runs every short event sequence in ONE process without that reset (one client run calls these helpers many
+times), so state kept in module globals / caches is exercised as well.  Every violation is reported with the
+shortest event trace from an initial state and is re-executed from scratch on a fresh directory (no snapshots, no
+restore) before it is recorded.
 """
 import collections
+import copy
+import itertools
 import os
 import random
 import re
 import shutil
 import stat
-import types
 import uuid as _uuid
 
 from mc.result import Result
@@ -35,22 +41,29 @@ ID = "C17"
 LEVEL = "model_checking"
 RULE = ("explicit-state BFS to closure over the real directory tree: one case = one (canonical state, event) pair, "
         "executed once by restoring the state's tree and calling the real function; states are de-duplicated on "
-        "(directory presence, kind/content-class of every entry, relation of the stored identifier to the last "
-        "returned one, whether the last returned one is the subscription identity); units split the state space along components no event can leave (which configuration "
-        "directories exist, whether machine-id is a symlink) so the per-unit state counts add up to the number of "
-        "distinct states (states reached outside a unit's component are counted in counters.states_outside_unit_component, "
-        "0 on the unchanged tree); a case is non-trivial when the event changed the tree or returned an identifier")
+        "(directory kinds, kind/content-class of every entry, relation of the stored identifier to the last "
+        "returned one, whether the last returned one is the subscription identity); closure units are the "
+        "components no event can leave (number / kind / list order of the configuration directories, whether "
+        "machine-id is a symlink in the main components) so their state counts add up to the number of distinct "
+        "states (states reached outside a unit's component are counted in counters.states_outside_unit_component, "
+        "0 on the unchanged tree); the one-process units enumerate every event sequence up to a length bound from "
+        "a few initial states without resetting module state, one case = one sequence judged at its last event "
+        "(not counted as states); a case is non-trivial when the (last) event changed the tree or returned an identifier")
 ASSUMPTIONS = [
     "identifier VALUES are abstracted to (spelling class, equal to the last returned id or not, last returned id is the "
-    "subscription identity or not): the code under test "
-    "never compares or branches on an identifier's value beyond 'parses as a UUID' (argument in canon())",
+    "subscription identity or not): the code under test never compares or branches on an identifier's value beyond "
+    "'parses as a UUID' (argument in canon())",
     "marker / symlink-target file CONTENT is abstracted to empty / non-empty: the code never reads these files",
-    "uuid4 is a counter patched at insights.client.utilities.uuid; the subscription identity is an enumerated "
-    "environment answer in {none, a fixed v4 UUID} per call; the clock only feeds marker content (abstracted)",
-    "the environment moves only at the stated places: symlinks are planted at vacant marker locations; nobody else "
-    "deletes or edits the identifier file between client runs",
+    "uuid.uuid4 (standard library) is a counter; the subscription identity is an enumerated environment answer per "
+    "call given through cert_auth.RHSM_CONFIG / rhsmCertificate.read; the clock only feeds marker content (abstracted)",
+    "the environment moves only at the stated places: symlinks are planted at vacant marker / identifier locations; "
+    "nobody else deletes or edits the identifier file between client runs (the statement could not hold otherwise); "
+    "only regular files and symlinks occupy marker / identifier locations (the quantifier names no other kind)",
+    "state of the code under test that survives a call lives in module globals, function defaults, lru caches or class "
+    "attributes of InsightsConstants (these are reset between modelled client runs); the file system is the only "
+    "other memory",
     "the tree lives on tmpfs (/dev/shm); files are aged to a fixed old mtime before every event so that any rewrite "
-    "is visible in mtime_ns",
+    "is visible in mtime_ns; the checks run as root, so permission failures are not modelled",
 ]
 
 UA = "11111111-2222-4333-8444-555555555555"       # pre-existing identifier (v4)
@@ -66,78 +79,247 @@ VALID_RE = re.compile(r"^\s*[0-9a-fA-F]{8}-?[0-9a-fA-F]{4}-?[0-9a-fA-F]{4}-?[0-9
 OLD_NS = 1000000000 * 10 ** 9                      # 2001-09-09: every file is aged to this before an event
 
 MID = "etc1/machine-id"
-REG = ["etc1/.registered", "etc2/.registered"]
-UNREG = ["etc1/.unregistered", "etc2/.unregistered"]
-MARKERS = {"reg1": REG[0], "reg2": REG[1], "unreg1": UNREG[0], "unreg2": UNREG[1]}
-T_OK, T_NO, T_ID, T_IDNO = "../tg/t", "../tg/nope", "../tg/idt", "../tg/idnope"
+T_OK, T_NO, T_ID, T_IDNO, T_IDS = "../tg/t", "../tg/nope", "../tg/idt", "../tg/idnope", "../tg/ids"
+T_MID, T_DIR = "../etc1/machine-id", "../tg"
+
+
+_REG = dict((n, ["etc%d/.registered" % (i + 1) for i in range(n)]) for n in (1, 2, 3))
+_UNREG = dict((n, ["etc%d/.unregistered" % (i + 1) for i in range(n)]) for n in (1, 2, 3))
+
+
+def reg_paths(n):
+    return _REG[n]
+
+
+def unreg_paths(n):
+    return _UNREG[n]
+
+
+def marker_path(name):
+    """reg2 -> etc2/.registered, unreg1 -> etc1/.unregistered"""
+    return "etc%s/%s" % (name[-1], ".registered" if name.startswith("reg") else ".unregistered")
+
 
 # machine-id initial kinds: name -> (entry at MID or None, content of tg/idt or None)
 MID_KINDS = collections.OrderedDict([
     ("absent", (None, None)),
     ("A", (("f", UA), None)),
+    ("A_nl", (("f", UA + "\n"), None)),
     ("legacy", (("f", UA.replace("-", "")), None)),
     ("empty", (("f", ""), None)),
     ("garbage", (("f", "not-a-uuid"), None)),
     ("link:A", (("l", T_ID), UA)),
     ("link:dangling", (("l", T_IDNO), None)),
     # thorough only from here
-    ("A_nl", (("f", UA + "\n"), None)),
     ("upper", (("f", UA.upper()), None)),
     ("nonv4", (("f", UNV4), None)),
     ("ws", (("f", "\n"), None)),
+    ("A_crlf", (("f", UA + "\r\n"), None)),
+    ("A_sp", (("f", " " + UA + " "), None)),
+    ("braced", (("f", "{" + UA + "}"), None)),
+    ("bom", (("f", "\xef\xbb\xbf" + UA), None)),          # bytes EF BB BF in front (latin-1 spelled)
     ("link:legacy", (("l", T_ID), UA.replace("-", ""))),
     ("link:empty", (("l", T_ID), "")),
 ])
 QUICK_MID = ["absent", "A", "A_nl", "legacy", "empty", "garbage", "link:A", "link:dangling"]
-MARKER_KINDS = {"absent": None, "file": ("f", "M"), "link": ("l", T_OK), "dangling": ("l", T_NO)}
-MK_ORDER = ["absent", "file", "link", "dangling"]
+SMALL_MID = ["absent", "A", "legacy", "empty", "link:A", "link:dangling"]
+MARKER_KINDS = {"absent": None, "file": ("f", "M"), "link": ("l", T_OK), "dangling": ("l", T_NO),
+                # single-deviation kinds: an empty regular file, a symlink to the identifier file, a symlink to a directory
+                "efile": ("f", ""), "link_mid": ("l", T_MID), "link_dir": ("l", T_DIR)}
+MK_BASE = ["absent", "file", "link", "dangling"]
+MK_EXOTIC = ["efile", "link_mid", "link_dir"]
 
-ID_EVENTS = ["read:none", "read:B", "new:none", "new:B"]
+# subscription identity answers (environment, chosen per call)
+ANSWERS = collections.OrderedDict([
+    ("none", None),            # no rhsm configuration at all
+    ("B", UB),
+    ("empty", ""),             # a certificate whose CN is the empty string (falsy)
+    ("BHEX", UB.replace("-", "")),
+    ("err", IOError),          # configuration present, certificate unreadable
+    ("BUP", UB.upper()),
+    ("garbage", "not-a-uuid"),
+])
+NO_IDENTITY = ("none", "empty", "err")
+QUICK_ANSWERS = ["none", "B", "empty", "BHEX"]
 MARKER_EVENTS = ["reg", "unreg", "delreg", "delunreg"]
-PLANT_EVENTS = ["plant:%s:%s" % (m, t) for m in ("reg1", "unreg1", "reg2", "unreg2") for t in ("t", "x")]
-EVENTS = ID_EVENTS + MARKER_EVENTS + PLANT_EVENTS
+
+
+def id_events(answers):
+    return ["%s:%s" % (op, a) for op in ("read", "new") for a in answers]
+
+
+def plant_events(n):
+    return ["plant:%s%d:%s" % (m, i + 1, t) for i in range(n) for m in ("reg", "unreg") for t in ("t", "x")]
+
+
+PLANT_MID = ["plant:mid:t", "plant:mid:x"]
+
+# closure components. "main": every combination of the base kinds at every marker location is an initial state, marker
+# plantings are events, machine-id link / no link are separate units. "extra": other directory shapes with a reduced set
+# of initial layouts, identifier-location plantings as events, no marker plantings (the links are in the initial layouts).
+MAIN_DIRS = [(1, 1), (1, 0), (0, 1), (0, 0)]
+EXTRA = [  # (dirs, order)
+    ((1, 1), "rev"),          # the two lists name the legacy directory first
+    ((2, 1), "fwd"), ((1, 2), "fwd"),       # a configuration directory that is a symlink to a directory
+    ((3, 1), "fwd"), ((1, 3), "fwd"),       # ... a dangling symlink
+    ((1, 1, 1), "fwd"), ((1, 0, 1), "fwd"),   # three configuration directories (first / middle / last)
+    ((1,), "fwd"),            # a single one
+]
 
 BOUNDS = {
-    "quick": {"initial_states": "dir presence {11,10,01,00} x machine-id kinds %s x marker layouts {all absent, "
-                                "all regular, all symlink->file, all dangling, registered file + unregistered symlink}"
-                                % QUICK_MID,
-              "events": EVENTS, "depth": "closure (unbounded)"},
-    "thorough": {"initial_states": "dir presence {11,10,01,00} x machine-id kinds %s x every combination of "
-                                   "{absent, file, symlink->file, dangling symlink} at the 4 marker locations"
-                                   % list(MID_KINDS),
-                 "events": EVENTS, "depth": "closure (unbounded)"},
+    "quick": {"main_components": "2 directories, presence {11,10,01,00} x machine-id kinds %s x EVERY combination of "
+                                 "{absent, file, symlink->file, dangling symlink} at the 4 marker locations (incl. all "
+                                 "layouts with both markers present); events: read/new x answers %s, reg, unreg, delreg, "
+                                 "delunreg, 8 marker plantings" % (QUICK_MID, QUICK_ANSWERS),
+              "extra_components": "%s x machine-id kinds %s x reduced layouts (every per-directory pair uniformly and in one "
+                                  "directory only; one exotic kind %s at one location); events: read/new x answers, marker "
+                                  "events, 2 identifier-location plantings" % (EXTRA, SMALL_MID, MK_EXOTIC),
+              "one_process": "all event sequences of length <= 4 over read/new x {none,B}, reg, unreg, delreg, delunreg from "
+                             "8 initial states, module state not reset inside a sequence",
+              "depth": "closure (unbounded)"},
+    "thorough": {"main_components": "as quick with machine-id kinds %s, all answers %s, plus every layout with one exotic "
+                                    "kind %s at one location and any base kinds elsewhere" % (list(MID_KINDS), list(ANSWERS), MK_EXOTIC),
+                 "extra_components": "as quick with all machine-id kinds and all answers",
+                 "one_process": "length <= 5",
+                 "depth": "closure (unbounded)"},
 }
 CAP_S = {"quick": 120, "thorough": 1200}
-MAX_STATES = 200000        # guard against a tree whose state space does not close (a capped unit reports exhaustive: false)
+MAX_STATES = 400000        # guard against a tree whose state space does not close (a capped unit reports exhaustive: false)
 
 
 # ---- the seam ---------------------------------------------------------------------------------
 
+class _Cert(object):
+    PATH = "/etc/pki/consumer/"
+    CERT = "cert.pem"
+    KEY = "key.pem"
+
+    def __init__(self, cn):
+        self.cn = cn
+
+    def getConsumerId(self):
+        return self.cn
+
+
+class Hidden(object):
+    """Generic snapshot of what the code under test could remember between calls inside one process: module globals,
+    mutable function defaults, lru caches, class attributes of InsightsConstants. reset() puts the import-time values
+    back (a new client run is a new process). Nothing here names an attribute of the code under test."""
+
+    CONTAINERS = (dict, list, set, bytearray, collections.deque)
+
+    def __init__(self, module, klass, skip_class_attrs):
+        self.module, self.klass, self.skip = module, klass, set(skip_class_attrs)
+        self.mod = self._record(vars(module))
+        self.cls = self._record(dict((k, v) for k, v in vars(klass).items() if k not in self.skip))
+        self.mod_len, self.cls_len = len(vars(module)), len(vars(klass))
+        self.defaults = []
+        self.caches = []
+        for v in list(vars(module).values()):
+            if callable(v) and getattr(v, "__module__", None) == module.__name__:
+                if hasattr(v, "cache_clear"):
+                    self.caches.append(v)
+                f = getattr(v, "__wrapped__", v)
+                d = getattr(f, "__defaults__", None) or ()
+                for x in d:
+                    if isinstance(x, self.CONTAINERS):
+                        self.defaults.append((x, copy.deepcopy(x)))
+
+    def _record(self, ns):
+        rec = {}
+        for k, v in ns.items():
+            if k.startswith("__"):
+                continue
+            saved = None
+            if isinstance(v, self.CONTAINERS):
+                try:
+                    saved = copy.deepcopy(v)
+                except Exception:
+                    saved = None
+            rec[k] = (v, saved)
+        self.names = getattr(self, "names", set()) | set(rec)
+        return [(k, v, saved) for k, (v, saved) in rec.items()]
+
+    @staticmethod
+    def _refill(obj, saved):
+        if obj == saved:
+            return
+        if isinstance(obj, (dict, set)):
+            obj.clear()
+            obj.update(copy.deepcopy(saved))
+        elif isinstance(obj, collections.deque):
+            obj.clear()
+            obj.extend(copy.deepcopy(saved))
+        else:
+            obj[:] = copy.deepcopy(saved)
+
+    def _restore(self, ns_owner, ns, rec, nlen):
+        if len(ns) != nlen:
+            for k in [k for k in ns if not k.startswith("__") and k not in self.names and k not in self.skip]:
+                try:
+                    delattr(ns_owner, k)           # a lazily created global (cache) goes away
+                except Exception:
+                    pass
+        get = ns.get
+        for k, v, saved in rec:
+            if saved is not None:
+                self._refill(v, saved)
+            if get(k) is not v:
+                setattr(ns_owner, k, v)
+
+    def reset(self):
+        self._restore(self.module, vars(self.module), self.mod, self.mod_len)
+        self._restore(self.klass, vars(self.klass), self.cls, self.cls_len)
+        for obj, saved in self.defaults:
+            self._refill(obj, saved)
+        for f in self.caches:
+            f.cache_clear()
+
+
 class _Seam(object):
-    """Points the code under test at a directory and owns uuid4 / rhsm. One per process."""
+    """Points the code under test at a directory and owns uuid4 / the subscription identity. One per process."""
 
     def __init__(self):
+        self.ctr = 0
+        self.answer = "none"
+        orig_uuid4 = _uuid.uuid4
+        _uuid.uuid4 = self.uuid4                    # standard-library seam: any import style in the code under test sees it
         import insights.client.utilities as U
         from insights.client.constants import InsightsConstants as C
-        self.U, self.C = U, C
-        self.ctr = 0
-        self.rhsm = None
-        seam = self
+        from insights.client import cert_auth
+        self.U, self.C, self.cert_auth = U, C, cert_auth
+        for k, v in list(vars(U).items()):          # `from uuid import uuid4` bound before the seam existed
+            if v is orig_uuid4:
+                setattr(U, k, self.uuid4)
+        seam_ = self
 
-        def uuid4():
-            n = seam.ctr
-            seam.ctr += 1
-            return _uuid.UUID("c17c17c1-0000-4000-8000-%012x" % n)
+        def read(cls):
+            a = ANSWERS[seam_.answer]
+            if a is IOError:
+                raise IOError(2, "No such file or directory: cert.pem")
+            return _Cert(a)
+        cert_auth.rhsmCertificate.read = classmethod(read)
+        self.hidden = Hidden(U, C, ("registered_files", "unregistered_files"))
 
-        shim = types.ModuleType("uuid_c17_shim")
-        shim.__dict__.update({k: v for k, v in _uuid.__dict__.items() if not k.startswith("__")})
-        shim.uuid4 = uuid4
-        U.uuid = shim                              # utilities.py calls uuid.uuid4() and uuid.UUID()
-        U._get_rhsm_identity = lambda: seam.rhsm
+    def uuid4(self):
+        n = self.ctr
+        self.ctr += 1
+        return _uuid.UUID("c17c17c1-0000-4000-8000-%012x" % n)
 
-    def point(self, root):
-        self.C.registered_files = [os.path.join(root, p) for p in REG]
-        self.C.unregistered_files = [os.path.join(root, p) for p in UNREG]
+    def set_answer(self, name):
+        self.answer = name
+        self.cert_auth.RHSM_CONFIG = None if name == "none" else self
+
+    def point(self, root, n, order):
+        key = (root, n, order)
+        if getattr(self, "_pkey", None) != key:
+            r = [os.path.join(root, p) for p in reg_paths(n)]
+            u = [os.path.join(root, p) for p in unreg_paths(n)]
+            if order == "rev":
+                r, u = r[::-1], u[::-1]
+            self._pkey, self._r, self._u = key, r, u
+        self.C.registered_files = list(self._r)
+        self.C.unregistered_files = list(self._u)
 
 
 _SEAM = None
@@ -153,14 +335,45 @@ def seam():
 # ---- the world: a real directory tree ------------------------------------------------------------
 
 class World(object):
-    def __init__(self, root, dirs):
+    """dirs[i]: 0 absent | 1 directory | 2 symlink to the directory real<i> | 3 dangling symlink"""
+
+    def __init__(self, root, dirs, order="fwd"):
         self.root = root
-        self.dirs = tuple(int(bool(d)) for d in dirs)
-        self.expected_top = ["tg"] + ["etc%d" % (i + 1) for i in (0, 1) if self.dirs[i]]
-        for d in self.expected_top:
-            os.mkdir(os.path.join(root, d))
+        self.dirs = tuple(int(d) for d in dirs)
+        self.n = len(self.dirs)
+        self.order = order
+        self.top = {"tg": ("d", "")}
+        self.scan = ["tg"]
+        for i, k in enumerate(self.dirs):
+            e = "etc%d" % (i + 1)
+            if k == 1:
+                self.top[e] = ("d", "")
+            elif k == 2:
+                self.top["real%d" % (i + 1)] = ("d", "")
+                self.top[e] = ("l", "real%d" % (i + 1))
+            elif k == 3:
+                self.top[e] = ("l", "gone%d" % (i + 1))
+            if k in (1, 2):
+                self.scan.append(e)
+        for name in sorted(self.top, key=lambda x: self.top[x][0]):     # directories first
+            self._mktop(name)
         self.cur = {}
-        seam().point(root)
+        self.meta = {}             # rel -> (inode, size) of regular files as last seen
+        self.point()
+
+    def point(self):
+        seam().point(self.root, self.n, self.order)
+
+    def usable(self, i):
+        return self.dirs[i] in (1, 2)
+
+    def _mktop(self, name):
+        k, t = self.top[name]
+        path = os.path.join(self.root, name)
+        if k == "d":
+            os.mkdir(path)
+        else:
+            os.symlink(t, path)
 
     def p(self, rel):
         return os.path.join(self.root, rel)
@@ -168,37 +381,57 @@ class World(object):
     def snapshot(self):
         """Reads the whole tree back: rel path -> (kind, data, mtime_ns)."""
         ents = {}
-        top = sorted(os.listdir(self.root))
-        for name in top:
-            if name not in self.expected_top:
-                ents[name] = ("x", "", 0)          # something created outside the three directories
-        for d in self.expected_top:
-            dp = os.path.join(self.root, d)
-            if not os.path.isdir(dp) or os.path.islink(dp):
-                ents[d] = ("x", "", 0)
+        present = set()
+        with os.scandir(self.root) as it:
+            for e in it:
+                present.add(e.name)
+                want = self.top.get(e.name)
+                if want is None:
+                    ok = False
+                elif want[0] == "d":
+                    ok = e.is_dir(follow_symlinks=False)
+                else:
+                    ok = e.is_symlink() and os.readlink(e.path) == want[1]
+                if not ok:
+                    ents[e.name] = ("x", "", 0)    # something created / replaced outside the configuration directories
+        for name in self.top:
+            if name not in present:
+                ents[name] = ("x", "", 0)          # a directory of the layout vanished
+        cur, meta, newmeta = self.cur, self.meta, {}
+        for d in self.scan:
+            if d in ents:
                 continue
-            with os.scandir(dp) as it:
+            with os.scandir(os.path.join(self.root, d)) as it:
                 for e in it:
                     rel = d + "/" + e.name
                     st = e.stat(follow_symlinks=False)
                     if stat.S_ISLNK(st.st_mode):
                         ents[rel] = ("l", os.readlink(e.path), 0)
                     elif stat.S_ISREG(st.st_mode):
-                        with open(e.path, "rb") as fh:
-                            ents[rel] = ("f", fh.read().decode("latin-1"), st.st_mtime_ns)
+                        m = (st.st_ino, st.st_size)
+                        old = cur.get(rel)
+                        if (st.st_mtime_ns == OLD_NS and old is not None and old[0] == "f" and old[2] == OLD_NS
+                                and meta.get(rel) == m):
+                            # same inode, same size, still carrying the aged mtime: not written since it was aged
+                            ents[rel] = old
+                        else:
+                            with open(e.path, "rb") as fh:
+                                ents[rel] = ("f", fh.read().decode("latin-1"), st.st_mtime_ns)
+                        newmeta[rel] = m
                     else:
                         ents[rel] = ("x", "", 0)
         self.cur = ents
+        self.meta = newmeta
         return ents
 
     def _remove(self, rel):
         path = self.p(rel)
         if os.path.isdir(path) and not os.path.islink(path):
             shutil.rmtree(path)
-        else:
+        elif os.path.lexists(path):
             os.remove(path)
-        if rel in self.expected_top:
-            os.mkdir(path)
+        if rel in self.top:
+            self._mktop(rel)
 
     def _create(self, rel, ent):
         path = self.p(rel)
@@ -207,14 +440,16 @@ class World(object):
         elif ent[0] == "f":
             with open(path, "wb") as fh:
                 fh.write(ent[1].encode("latin-1"))
+                st = os.fstat(fh.fileno())
             os.utime(path, ns=(OLD_NS, OLD_NS))
+            self.meta[rel] = (st.st_ino, st.st_size)
         else:
             raise ValueError("cannot create %r" % (ent,))
 
     def sync(self, target):
         """Makes the tree equal to `target` (a snapshot whose files all carry OLD_NS)."""
         cur = self.cur
-        for rel in list(cur):
+        for rel in sorted(cur, key=lambda r: (cur[r][0] != "x", r)):      # repair the top level first
             ent = cur[rel]
             t = target.get(rel)
             if t == ent:
@@ -224,6 +459,11 @@ class World(object):
                 continue
             self._remove(rel)
             del cur[rel]
+            self.meta.pop(rel, None)
+            if ent[0] == "x":
+                # anything below a repaired top-level directory is gone as well
+                for r2 in [r for r in cur if r.startswith(rel + "/")]:
+                    del cur[r2]
         for rel, t in target.items():
             if rel not in cur:
                 self._create(rel, t)
@@ -239,10 +479,14 @@ def aged(ents):
 
 
 def initial_ents(init):
-    """Initial-state descriptor -> snapshot. init = {"dirs": [d1, d2], "mid": kind, "reg": [k1, k2], "unreg": [k1, k2]}"""
+    """Initial-state descriptor -> snapshot.
+    init = {"dirs": [k1, k2(, k3)], "mid": kind, "reg": [kinds], "unreg": [kinds] (, "order": "rev") (, "ids": 1)}"""
     ents = {"tg/t": ("f", "TARGET", OLD_NS)}
     dirs = init["dirs"]
-    if dirs[0]:
+    n = len(dirs)
+    if init.get("ids"):
+        ents["tg/ids"] = ("f", UA, OLD_NS)
+    if dirs[0] in (1, 2):
         ment, idt = MID_KINDS[init["mid"]]
         if ment is not None:
             ents[MID] = (ment[0], ment[1], OLD_NS if ment[0] == "f" else 0)
@@ -250,12 +494,12 @@ def initial_ents(init):
             ents["tg/idt"] = ("f", idt, OLD_NS)
     elif init["mid"] != "absent":
         raise ValueError("machine-id kind %r needs the first directory" % init["mid"])
-    for i in (0, 1):
-        for paths, kinds in ((REG, init["reg"]), (UNREG, init["unreg"])):
+    for i in range(n):
+        for paths, kinds in ((reg_paths(n), init["reg"]), (unreg_paths(n), init["unreg"])):
             k = MARKER_KINDS[kinds[i]]
             if k is None:
                 continue
-            if not dirs[i]:
+            if dirs[i] not in (1, 2):
                 raise ValueError("marker in an absent directory")
             ents[paths[i]] = (k[0], k[1], OLD_NS if k[0] == "f" else 0)
     return ents
@@ -283,6 +527,14 @@ def id_file(ents):
 
 # ---- canonical form ------------------------------------------------------------------------------
 
+def forced_v4(content):
+    """What the code under test is documented to return for a stored identifier, or None if it does not parse."""
+    try:
+        return str(_uuid.UUID(content.strip(), version=4))
+    except ValueError:
+        return None
+
+
 def id_class(content, last):
     """Everything generate_machine_id can observe about the stored identifier, with the VALUE replaced by
     its relation to the identifier returned last."""
@@ -292,7 +544,7 @@ def id_class(content, last):
     try:
         raw = _uuid.UUID(s)
     except ValueError:
-        return "blank" if s == "" else "unparsable"
+        return "blank" if s == "" else ("unparsable:" + content if len(content) < 48 else "unparsable")
     forced = str(_uuid.UUID(s, version=4))          # what the code under test returns for it
     if s == str(raw):
         form = "hyphenated"
@@ -300,6 +552,8 @@ def id_class(content, last):
         form = "legacy-hex"
     elif s == str(raw).upper():
         form = "HYPHENATED"
+    elif s == raw.hex.upper():
+        form = "LEGACY-HEX"
     else:
         form = "literal:" + s                       # unusual spelling: not abstracted at all
     return (form, content.replace(s, "<id>"), forced == str(raw), forced == last)
@@ -320,7 +574,8 @@ def canon(dirs, ents, last):
     the other with identical observations.  Fresh identifiers come from a counter that is restored together with
     the state, so they differ from every identifier already present in either state.  The subscription identity
     is the one constant the environment can hand out again at any time (when no usable identifier file exists a
-    read returns it), therefore `last == UB` is part of the key.  Unusual spellings are kept literally (no merging).
+    read returns it), therefore `last == UB` is part of the key.  Unusual spellings and short unparsable contents
+    are kept literally (no merging).
     (b) marker and target files are never opened for reading by the code; the oracle compares their bytes only
     before/after a single event.  (c) the code never looks at time stamps; the harness ages all files before each
     event.  (d) see (a).
@@ -342,11 +597,13 @@ def canon(dirs, ents, last):
     return (tuple(dirs), tuple(items), last is not None, last == UB)
 
 
-def component(dirs, ents):
-    """Part of the state no event can change on the unchanged tree: which directories exist and whether the
-    identifier location is a symlink. Units are the components."""
+def component(ents, split_mid):
+    """Part of the state no event of a unit can change on the unchanged tree (beyond the directory shape, which is
+    fixed per unit): in the main components, whether the identifier location is a symlink."""
+    if not split_mid:
+        return "any"
     e = ents.get(MID)
-    return (tuple(dirs), "link" if (e is not None and e[0] == "l") else "nolink")
+    return "link" if (e is not None and e[0] == "l") else "nolink"
 
 
 # ---- events and oracle ---------------------------------------------------------------------------
@@ -355,7 +612,9 @@ def enabled(world, ev):
     if not ev.startswith("plant:"):
         return True
     name = ev.split(":")[1]
-    return bool(world.dirs[int(name[-1]) - 1]) and MARKERS[name] not in world.cur
+    if name == "mid":
+        return world.usable(0) and MID not in world.cur
+    return world.usable(int(name[-1]) - 1) and marker_path(name) not in world.cur
 
 
 def apply_event(world, ev):
@@ -364,13 +623,14 @@ def apply_event(world, ev):
     U = s.U
     parts = ev.split(":")
     if parts[0] == "plant":
-        os.symlink(T_OK if parts[2] == "t" else T_NO, world.p(MARKERS[parts[1]]))
+        if parts[1] == "mid":
+            os.symlink(T_IDS if parts[2] == "t" else T_IDNO, world.p(MID))
+        else:
+            os.symlink(T_OK if parts[2] == "t" else T_NO, world.p(marker_path(parts[1])))
         return ("ok", None)
-    if ev not in EVENTS:
-        raise ValueError("unknown event %r" % ev)
     try:
-        if parts[0] in ("read", "new"):
-            s.rhsm = UB if parts[1] == "B" else None
+        if parts[0] in ("read", "new") and parts[1] in ANSWERS:
+            s.set_answer(parts[1])
             try:
                 r = U.generate_machine_id(new=(parts[0] == "new"), destination_file=world.p(MID))
             except SystemExit as ex:
@@ -384,30 +644,55 @@ def apply_event(world, ev):
             U.delete_registered_file()
         elif ev == "delunreg":
             U.delete_unregistered_file()
+        else:
+            raise KeyError(ev)
+    except KeyError:
+        raise ValueError("unknown event %r" % ev)
     except Exception as ex:          # the real function raised: an observation, not a verdict
         return ("raised", type(ex).__name__)
     return ("ok", None)
 
 
 def body(ent):
-    return None if ent is None else (ent[0], ent[1])
+    return None if ent is None else [ent[0], ent[1]]
 
 
-def judge(ev, before, after, obs, last):
+def both_present(ents, n):
+    return [i for i in range(n) if reg_paths(n)[i] in ents and unreg_paths(n)[i] in ents]
+
+
+def judge(ev, before, after, obs, last, n):
     """The oracle for one transition. Returns (violations [(clause, expected, observed, features)], new last id)."""
     out = []
-    base = ev.split(":")[0]
+    parts = ev.split(":")
+    base = parts[0]
     new_last = last
-    if base in ("read", "new") and obs[0] == "id":
-        r = obs[1]
-        if not (isinstance(r, str) and CANON_RE.match(r)):
-            out.append(("id:not-canonical-uuid", "8-4-4-4-12 lower-case hex", repr(r), {}))
-        # weaker reading: an exit (unparsable file) is not a returned identifier and leaves `last` untouched
-        if base == "read" and last is not None and r != last:
-            out.append(("id:changed-without-regenerate", last, r, {}))
-        new_last = r
-    if base == "read":
+    REG, UNREG = reg_paths(n), unreg_paths(n)
+    if base in ("read", "new"):
         idf = id_file(before)
+        stored = forced_v4(before[idf][1]) if idf is not None else None
+        if obs[0] == "id":
+            r = obs[1]
+            if not (isinstance(r, str) and CANON_RE.match(r)):
+                out.append(("id:not-canonical-uuid", "8-4-4-4-12 lower-case hex", repr(r), {}))
+            if base == "read" and last is not None and r != last:
+                out.append(("id:changed-without-regenerate", last, r, {}))
+            if base == "new" and parts[1] in NO_IDENTITY and r in (last, stored):
+                # "stays the same UNTIL a new one is explicitly requested" (docstring: "Force generate a new ID"): when
+                # no subscription identity is on offer, the identifier returned for the request is not the old one.
+                # With a subscription identity the code deliberately reuses that identity: nothing is demanded.
+                out.append(("id:regenerate-returned-old-id", "an identifier other than %s" % r, r, {}))
+            new_last = r
+        else:
+            # an exit (unparsable file) or an exception is not a returned identifier. After an identifier has been
+            # returned, and without a regeneration request since, a read that returns nothing did not "stay the same".
+            # Same clause as a differing identifier: the identifier did not stay the same.
+            if base == "read" and last is not None:
+                out.append(("id:changed-without-regenerate", last, "no identifier: %s %s" % (obs[0], obs[1]),
+                            {"how": obs[0]}))
+            if base == "new":
+                new_last = None            # a new one was requested: nothing is known to be current any more
+    if base == "read":
         if idf is not None and VALID_RE.match(before[idf][1]):
             if after.get(MID) != before.get(MID) or after.get(idf) != before.get(idf):
                 same = body(after.get(idf)) == body(before.get(idf))
@@ -416,12 +701,19 @@ def judge(ev, before, after, obs, last):
                             {"entry": list(after[idf]) if idf in after else None},
                             {"content_changed": not same}))
     if base in ("reg", "unreg"):
-        for i in (0, 1):
-            if REG[i] in after and UNREG[i] in after:
-                out.append(("markers:both-present", "at most one marker in etc%d" % (i + 1),
-                            {REG[i]: list(body(after[REG[i]])), UNREG[i]: list(body(after[UNREG[i]]))},
-                            {"after": base}))
-        written = REG if base == "reg" else UNREG
+        for i in both_present(after, n):
+            out.append(("markers:both-present", "at most one marker in etc%d" % (i + 1),
+                        {REG[i]: body(after[REG[i]]), UNREG[i]: body(after[UNREG[i]])},
+                        {"after": base}))
+    elif base != "plant":
+        # reads, regenerations and marker deletions are part of the quantified histories: from a coherent layout they
+        # cannot lead to an incoherent one (every coherent layout is what some register / unregister history leaves)
+        if not both_present(before, n):
+            for i in both_present(after, n):
+                out.append(("markers:coherence-broken", "at most one marker in etc%d" % (i + 1),
+                            {REG[i]: body(after[REG[i]]), UNREG[i]: body(after[UNREG[i]])}, {"by": base}))
+    if base in ("reg", "unreg", "delreg", "delunreg"):
+        written = REG if base == "reg" else (UNREG if base == "unreg" else [])
         for rel in REG + UNREG:
             b = before.get(rel)
             if b is None or b[0] != "l":
@@ -429,12 +721,13 @@ def judge(ev, before, after, obs, last):
             t = resolve(rel, b)
             if body(before.get(t)) != body(after.get(t)):
                 out.append(("markers:symlink-followed", {t: body(before.get(t))}, {t: body(after.get(t))},
-                            {"dangling": t not in before, "link_at": "written" if rel in written else "deleted"}))
+                            {"dangling": t not in before and t != "tg",
+                             "link_at": "written" if rel in written else "deleted", "by": base}))
             if rel in written:
                 a = after.get(rel)
                 if a is None or a[0] != "f":
                     out.append(("markers:symlink-not-replaced", "regular file at " + rel,
-                                "absent" if a is None else list(body(a)), {"dangling": t not in before}))
+                                "absent" if a is None else body(a), {"dangling": t not in before and t != "tg"}))
     return out, new_last
 
 
@@ -443,36 +736,53 @@ def step(world, ev, last):
     before = world.cur
     obs = apply_event(world, ev)
     after = world.snapshot()
-    viols, new_last = judge(ev, before, after, obs, last)
+    viols, new_last = judge(ev, before, after, obs, last, world.n)
     return obs, after, viols, new_last
 
 
-def case_features(init, trace):
-    return {"id_dir_present": bool(init["dirs"][0]), "event": trace[-1].split(":")[0]}
+def case_features(init, trace, mode):
+    f = {"id_dir_present": init["dirs"][0] in (1, 2), "event": trace[-1].split(":")[0]}
+    if mode != "runs":
+        f["mode"] = mode
+    return f
 
 
-def check_case(case):
-    """Re-executes a trace from its initial state on a fresh directory, no snapshots. Judges the last event."""
-    init, trace = case["init"], case["trace"]
+def run_linear(init, trace, mode="runs"):
+    """Executes a trace from its initial state on a fresh directory, no snapshots. mode "runs": every event is a
+    client run of its own (module state reset before each); "one-process": one reset at the start only.
+    Returns (violations of the last event, final canonical state)."""
     s = seam()
     root = tmp.mkscratch("c17r")
     try:
-        w = World(root, init["dirs"])
+        w = World(root, init["dirs"], init.get("order", "fwd"))
         w.sync(initial_ents(init))
         w.snapshot()
         w.age()
         s.ctr = 0
+        s.hidden.reset()
+        w.point()
         last = None
         viols = []
         for ev in trace:
             if not enabled(w, ev):
-                raise ValueError("event %r is not enabled in replay of %r" % (ev, case))
+                raise ValueError("event %r is not enabled in %r / %r" % (ev, init, trace))
+            if mode == "runs":
+                s.hidden.reset()
+                w.point()
             _, _, viols, last = step(w, ev, last)
             w.age()
-        feats = case_features(init, trace)
-        return [(c, e, o, dict(feats, **f)) for (c, e, o, f) in viols]
+        return viols, canon(tuple(init["dirs"]), w.cur, last)
     finally:
         shutil.rmtree(root, ignore_errors=True)
+
+
+def check_case(case):
+    """Re-executes a trace from its initial state on a fresh directory. Judges the last event."""
+    init, trace = case["init"], case["trace"]
+    mode = case.get("mode", "runs")
+    viols, _ = run_linear(init, trace, mode)
+    feats = case_features(init, trace, mode)
+    return [(c, e, o, dict(feats, **f)) for (c, e, o, f) in viols]
 
 
 def replay(case):
@@ -482,63 +792,131 @@ def replay(case):
 
 # ---- initial states and units --------------------------------------------------------------------
 
-def marker_layouts(tier, dirs):
-    """List of (reg kinds, unreg kinds) for the present directories."""
-    if tier == "thorough":
-        opts = [MK_ORDER if dirs[i] else ["absent"] for i in (0, 1)]
-        return [([r1, r2], [u1, u2]) for r1 in opts[0] for u1 in opts[0] for r2 in opts[1] for u2 in opts[1]]
+def _usable(dirs):
+    return [d in (1, 2) for d in dirs]
 
-    def lay(r, u):
-        return ([r if dirs[0] else "absent", r if dirs[1] else "absent"],
-                [u if dirs[0] else "absent", u if dirs[1] else "absent"])
+
+def full_layouts(dirs, exotic):
+    """Every combination of the base kinds at every marker location of a usable directory; with `exotic`, also every
+    layout with exactly one exotic kind."""
+    n = len(dirs)
+    locs = [(m, i) for i in range(n) for m in ("reg", "unreg") if _usable(dirs)[i]]
     out = []
-    for l in (lay("absent", "absent"), lay("file", "file"), lay("link", "link"), lay("dangling", "dangling"),
-              lay("file", "link")):
-        if l not in out:
-            out.append(l)
+
+    def emit(kinds):
+        lay = {"reg": ["absent"] * n, "unreg": ["absent"] * n}
+        for (m, i), k in zip(locs, kinds):
+            lay[m][i] = k
+        out.append((lay["reg"], lay["unreg"]))
+    for kinds in itertools.product(MK_BASE, repeat=len(locs)):
+        emit(kinds)
+    if exotic:
+        for j in range(len(locs)):
+            for x in MK_EXOTIC:
+                for kinds in itertools.product(MK_BASE, repeat=len(locs) - 1):
+                    emit(kinds[:j] + (x,) + kinds[j:])
     return out
 
 
-def initial_states(tier, dirs, cls):
-    mids = list(MID_KINDS) if tier == "thorough" else QUICK_MID
-    if not dirs[0]:
-        mids = ["absent"]
-    mids = [m for m in mids if m.startswith("link") == (cls == "link")]
-    return [{"dirs": list(dirs), "mid": m, "reg": r, "unreg": u}
-            for m in mids for (r, u) in marker_layouts(tier, dirs)]
+def reduced_layouts(dirs):
+    """Every pair of base kinds uniformly in all usable directories and in one directory only; one exotic kind at one
+    location with everything else absent."""
+    n = len(dirs)
+    us = _usable(dirs)
+    out = []
+
+    def add(reg, unreg):
+        if (reg, unreg) not in out:
+            out.append((reg, unreg))
+    for r in MK_BASE:
+        for u in MK_BASE:
+            add([r if us[i] else "absent" for i in range(n)], [u if us[i] else "absent" for i in range(n)])
+            for j in range(n):
+                if us[j]:
+                    add([r if i == j else "absent" for i in range(n)], [u if i == j else "absent" for i in range(n)])
+    for j in range(n):
+        if us[j]:
+            for x in MK_EXOTIC:
+                add([x if i == j else "absent" for i in range(n)], ["absent"] * n)
+                add(["absent"] * n, [x if i == j else "absent" for i in range(n)])
+    return out
+
+
+def unit_spec(unit, tier):
+    """(initial states, events) of a closure unit."""
+    dirs = tuple(unit["dirs"])
+    order = unit.get("order", "fwd")
+    n = len(dirs)
+    thorough = tier == "thorough"
+    answers = list(ANSWERS) if thorough else QUICK_ANSWERS
+    if unit["part"] == "main":
+        mids = list(MID_KINDS) if thorough else QUICK_MID
+        mids = [m for m in mids if m.startswith("link") == (unit["mid_class"] == "link")]
+        layouts = full_layouts(dirs, exotic=thorough)
+        events = id_events(answers) + MARKER_EVENTS + plant_events(n)
+        extra = {}
+    else:
+        mids = list(MID_KINDS) if thorough else SMALL_MID
+        layouts = reduced_layouts(dirs)
+        events = id_events(answers) + MARKER_EVENTS + PLANT_MID
+        extra = {"ids": 1}
+        if order != "fwd":
+            extra["order"] = order
+    if dirs[0] not in (1, 2):
+        mids = [m for m in mids if m == "absent"]
+    inits = [dict({"dirs": list(dirs), "mid": m, "reg": r, "unreg": u}, **extra) for m in mids for (r, u) in layouts]
+    return inits, events
+
+
+OP_EVENTS = ["read:none", "read:B", "new:none", "new:B"] + MARKER_EVENTS
+OP_INITS = [{"dirs": [1, 1], "mid": m, "reg": [k, k], "unreg": [k, k]}
+            for m in ("absent", "A", "legacy", "empty") for k in ("absent", "file")]
 
 
 def units(tier, seed):
     us = []
-    for dirs in ((1, 1), (1, 0), (0, 1), (0, 0)):
+    for dirs in MAIN_DIRS:
         for cls in ("nolink", "link"):
-            if initial_states(tier, dirs, cls):
-                us.append({"dirs": list(dirs), "mid_class": cls, "seed": seed})
+            u = {"part": "main", "dirs": list(dirs), "mid_class": cls, "seed": seed}
+            if unit_spec(u, tier)[0]:
+                us.append(u)
+    for dirs, order in EXTRA:
+        us.append({"part": "extra", "dirs": list(dirs), "order": order, "seed": seed})
+    for i in range(len(OP_INITS)):
+        for ev in OP_EVENTS:
+            us.append({"part": "one-process", "init": i, "first": ev, "max_len": 4 if tier == "quick" else 5})
     return us
 
 
 def unit_weight(u):
-    return sum(u["dirs"]) * 10 + (3 if u["mid_class"] == "nolink" else 1)
+    if u["part"] == "main":
+        return 4 ** (2 * sum(1 for d in u["dirs"] if d)) * (3 if u["mid_class"] == "nolink" else 2)
+    if u["part"] == "extra":
+        return 40 * len(u["dirs"])
+    return 5
 
 
 # ---- the search ------------------------------------------------------------------------------------
 
 def run_unit(unit, tier):
+    if unit["part"] == "one-process":
+        return run_one_process(unit)
     res = Result()
     dirs = tuple(unit["dirs"])
-    comp = (dirs, unit["mid_class"])
+    order = unit.get("order", "fwd")
+    split_mid = unit["part"] == "main"
+    comp = unit.get("mid_class", "any")
     rng = random.Random(unit.get("seed", 0))
-    inits = initial_states(tier, dirs, unit["mid_class"])
+    inits, events = unit_spec(unit, tier)
     rng.shuffle(inits)                               # the seed permutes visiting order only
-    events = list(EVENTS)
     rng.shuffle(events)
     s = seam()
     root = tmp.mkscratch("c17")
     try:
-        w = World(root, dirs)
+        w = World(root, dirs, order)
         w.snapshot()
         seen = {}
-        nodes = []            # index -> [ents (aged), last, ctr, parent index, event, depth, init]
+        nodes = []            # index -> (ents (aged), last, ctr, parent index, event, depth, init)
         frontier = collections.deque()
         for init in inits:
             ents = initial_ents(init)
@@ -575,9 +953,12 @@ def run_unit(unit, tier):
                 if not enabled(w, ev):
                     continue
                 s.ctr = ctr
+                s.hidden.reset()                  # a new client run
+                w.point()
                 obs, after, viols, new_last = step(w, ev, last)
                 res.transitions += 1
-                changed = aged(after) != ents
+                ag = aged(after)
+                touched = sorted(set(os.path.basename(r) for r in set(ag) | set(ents) if ag.get(r) != ents.get(r)))
                 okind = obs[0]
                 if okind == "id":
                     okind = "id-first" if last is None else ("id-same" if obs[1] == last else "id-other")
@@ -586,16 +967,13 @@ def run_unit(unit, tier):
                     res.stat("events_that_raised")
                 elif okind == "exit":
                     res.stat("reads_that_exit_on_unparsable_file")
-                ag = aged(after)
-                touched = sorted(set(os.path.basename(r) for r in set(ag) | set(ents) if ag.get(r) != ents.get(r)))
-                res.case(nontrivial=(changed or obs[0] == "id"),
+                res.case(nontrivial=(bool(touched) or obs[0] == "id"),
                          outcome="%s/%s/%s" % (ev.split(":")[0], okind, ",".join(touched) or "-"))
                 if viols:
                     init, tr = trace_of(i)
                     case = {"init": init, "trace": tr + [ev]}
                     confirmed = check_case(case)          # from scratch, on a fresh directory, no restore
-                    w.snapshot()
-                    seam().point(root)
+                    w.point()
                     got = set(c for (c, _, _, _) in confirmed)
                     for (c, e, o, f) in viols:
                         if c not in got:
@@ -606,9 +984,9 @@ def run_unit(unit, tier):
                 k = canon(dirs, after, new_last)
                 if k not in seen:
                     seen[k] = len(nodes)
-                    nodes.append((aged(after), new_last, s.ctr, i, ev, depth + 1, None))
+                    nodes.append((ag, new_last, s.ctr, i, ev, depth + 1, None))
                     frontier.append(len(nodes) - 1)
-                    if component(dirs, after) != comp:
+                    if component(after, split_mid) != comp:
                         outside += 1
                 succ[i].add(seen[k])
         closed = not frontier
@@ -620,8 +998,8 @@ def run_unit(unit, tier):
         # how long a history has to be when the directories start out empty (graph search on the explored
         # transition graph, nothing is executed): shows that the closure contains real multi-step histories
         # even when every layout is also an initial state
-        prist = [j for j, n in enumerate(nodes) if n[6] is not None and n[6]["mid"] == "absent"
-                 and set(n[6]["reg"] + n[6]["unreg"]) == {"absent"}]
+        prist = [j for j, nd in enumerate(nodes) if nd[6] is not None and nd[6]["mid"] == "absent"
+                 and set(nd[6]["reg"] + nd[6]["unreg"]) == {"absent"}]
         if prist:
             dist = dict((j, 0) for j in prist)
             dq = collections.deque(prist)
@@ -638,7 +1016,7 @@ def run_unit(unit, tier):
         # it must arrive in the same canonical state. This validates snapshot/restore and counts complete traces.
         for i in range(len(nodes)):
             init, tr = trace_of(i)
-            k = _rerun_canon(init, tr)
+            _, k = run_linear(init, tr)
             res.traces += 1
             if seen.get(k) != i:
                 raise RuntimeError("C17 harness: history %r / %r does not re-reach its state" % (init, tr))
@@ -649,30 +1027,59 @@ def run_unit(unit, tier):
     return res
 
 
-def _rerun_canon(init, trace):
+def run_one_process(unit):
+    """Every event sequence up to max_len from one initial state, executed in one process with the module state of the
+    code under test reset only at the start of the sequence (one client run calls these helpers many times; anything
+    it keeps in memory must not break the statement either). A sequence is judged at its last event: its prefixes are
+    sequences of their own."""
+    res = Result()
+    init = OP_INITS[unit["init"]]
     s = seam()
-    root = tmp.mkscratch("c17t")
+    root = tmp.mkscratch("c17p")
     try:
         w = World(root, init["dirs"])
-        w.sync(initial_ents(init))
-        s.ctr = 0
-        last = None
-        for ev in trace:
-            if not enabled(w, ev):
-                raise RuntimeError("C17 harness: %r not enabled while re-running %r" % (ev, trace))
-            _, _, _, last = step(w, ev, last)
-            w.age()
-        return canon(tuple(init["dirs"]), w.cur, last)
+        w.snapshot()
+        ents0 = initial_ents(init)
+        firsts = [unit["first"]] if unit["first"] else OP_EVENTS
+        for length in range(1, unit["max_len"] + 1):
+            for first in firsts:
+                for rest in itertools.product(OP_EVENTS, repeat=length - 1):
+                    seq = [first] + list(rest)
+                    w.sync(ents0)
+                    s.ctr = 0
+                    s.hidden.reset()
+                    w.point()
+                    last = None
+                    for ev in seq:
+                        obs, after, viols, last = step(w, ev, last)
+                        w.age()
+                    res.traces += 1
+                    res.case(nontrivial=(len(seq) >= 2), outcome="one-process/%s/%s" % (seq[-1].split(":")[0], obs[0]))
+                    if viols:
+                        case = {"init": init, "trace": seq, "mode": "one-process"}
+                        confirmed = check_case(case)
+                        w.point()
+                        got = set(c for (c, _, _, _) in confirmed)
+                        for (c, e, o, f) in viols:
+                            if c not in got:
+                                raise RuntimeError("C17 harness: %s in a one-process sequence does not reproduce: %r" % (c, case))
+                        for (c, e, o, f) in confirmed:
+                            res.violation(c, case, e, o, f)
+        res.maxi("one_process_max_len", unit["max_len"])
+        res.stat("one_process_sequences", res.traces)
     finally:
         shutil.rmtree(root, ignore_errors=True)
+    return res
 
 
 TECHNIQUE = ("explicit-state breadth-first search to closure over a real configuration directory tree, transitions = "
-             "the real marker / identifier functions, identifier-value symmetry reduction, shortest-trace counterexamples")
-LEVEL_TEXT = ("Every history of reads, regenerations (each with either subscription-identity answer), registrations, "
-              "unregistrations, marker deletions and symlink plantings is covered, from every enumerated initial layout of two "
+             "the real marker / identifier functions, identifier-value symmetry reduction, shortest-trace counterexamples; "
+             "plus all short in-process event sequences")
+LEVEL_TEXT = ("Every history of reads, regenerations (each with every enumerated subscription-identity answer), registrations, "
+              "unregistrations, marker deletions and symlink plantings is covered, from every enumerated initial layout of the "
               "configuration directories, because the search runs until no new canonical state appears; the invariants are "
               "evaluated on every transition of the real code on a real tmpfs tree.")
 LEVEL_NOTE = ("Trusted: the identifier-value abstraction (argued in canon(), violations are re-executed concretely), the finite "
-              "alphabet of initial file kinds and symlink targets, uuid4 / subscription identity / clock replaced at the seam; "
-              "no concurrency between client runs, no other file kinds (directories, FIFOs) at marker locations.")
+              "alphabet of initial file kinds, directory shapes and symlink targets, uuid4 / certificate reader / clock replaced "
+              "below the code under test; no concurrency between client runs, no other file kinds (directories, FIFOs) at marker "
+              "or identifier locations, no permission failures (root).")
